@@ -53,11 +53,14 @@ type c02Query struct {
 	HasECS bool   `json:"has_ecs,omitempty"`
 	Cookie bool   `json:"cookie,omitempty"`
 	TCP    bool   `json:"tcp,omitempty"`
+	RD     bool   `json:"rd,omitempty"` // header bits a reply copies from its query
+	CD     bool   `json:"cd,omitempty"`
 }
 
 func (q c02Query) Msg() *dns.Msg {
 	m := new(dns.Msg)
 	m.Id = 4711
+	m.RecursionDesired, m.CheckingDisabled = q.RD, q.CD
 	m.Question = []dns.Question{{Name: q.Name, Qtype: q.Type, Qclass: q.Class}}
 	if q.EDNS {
 		o := &dns.OPT{Hdr: dns.RR_Header{Name: ".", Rrtype: dns.TypeOPT}}
@@ -100,6 +103,7 @@ func c02FromClient(name string, qtype uint16, c gen.Client, rng *rand.Rand) c02Q
 	case 4:
 		q.TCP = true
 	}
+	q.RD, q.CD = rng.Intn(3) == 0, rng.Intn(5) == 0
 	return q
 }
 
